@@ -295,7 +295,12 @@ def run(tier, seed, rng):
         for d_txt, l_txt in (("((f0 % 3)).chooses(5, 6, (f1 + 1))", "_ch((pkt.f0 % 3), (5, 6, (pkt.f1 + 1)))"),
                              ("((f0 % 2)).chooses((7, f1))", "_ch((pkt.f0 % 2), (7, pkt.f1))"),
                              ("(f2).chooses(ab=1, x=(f0 + 2))", "_ch(pkt.f2, {b'ab': 1, b'x': (pkt.f0 + 2)})"),
-                             ("(f2[0:1]).chooses(a=f0, b=9)", "_ch(pkt.f2[0:1], {b'a': pkt.f0, b'b': 9})")):
+                             ("(f2[0:1]).chooses(a=f0, b=9)", "_ch(pkt.f2[0:1], {b'a': pkt.f0, b'b': 9})"),
+                             # the DICTIONARY form keeps its keys as written: a text key is not the bytes key that spells the same
+                             ("(f2).chooses({'ab': 1, b'cd': 2, b'x': 3})", "_ch(pkt.f2, {'ab': 1, b'cd': 2, b'x': 3})"),
+                             ("(f2).chooses({b'ab': 2, 'ab': 1, 'x': 5})", "_ch(pkt.f2, {b'ab': 2, 'ab': 1, 'x': 5})"),
+                             ("(f2[0:1]).chooses({'a': 1, b'b': f0, 'b': 7, b'x': 9})", "_ch(pkt.f2[0:1], {'a': 1, b'b': pkt.f0, 'b': 7, b'x': 9})"),
+                             ("(f0 % 2).chooses({'0': 4, 1: 5, '1': 6, 0: f1})", "_ch((pkt.f0 % 2), {'0': 4, 1: 5, '1': 6, 0: pkt.f1})")):
             extra.append(dict(src_d=d_txt, src_l=l_txt, env=env, more_envs=[x for x in envs if x is not env], symbolic=False))
     parts = shard(cases + extra, (len(cases) + len(extra)) // NPROC + 1)
     outs = run_impl_parallel(os.path.join(VERIF, 'harness', 'impl_expr.py'), [dict(cases=p) for p in parts])
